@@ -2054,3 +2054,117 @@ class FAXM(FA):
             fe = self._freeze(env)
             return [(x, fe) for x in self.b.succ(bb)]
         return FA._step(self, bb, envt)
+
+
+
+# ------------------------------------------------------------------------------------------------
+# appended: feasible paths that also decide `==` / `!=` between enum values of known variant
+
+class FAx(FA):
+    """FA that additionally follows shared references to tracked locals and evaluates the comparison a derived
+    `PartialEq` of an enum performs once canon has spliced it in (`discriminant_value(&a) == discriminant_value(&b)`):
+    when both variants are known along the path the bool is a constant and only one arm of the `if a == Enum::V` is
+    feasible. Needed where a refactor turns "one extra call on one of two call chains" into one shared helper with an
+    enum parameter that is a constant at each (spliced) call site. Extra abstract values:
+        ("ref", local)     a shared reference to a tracked local (the referent's value is looked up at the use)
+    Everything FA leaves unknown stays unknown (both arms feasible)."""
+
+    _cache = {}
+    _DISCR_VALUE = re.compile(r"core::intrinsics::discriminant_value")
+
+    def _tracked(self):
+        b = self.b
+        excluded = set()
+        rel = set()
+        for blk in b.blocks:
+            for s in blk["stmts"]:
+                if s["s"] != "assign":
+                    continue
+                rv = s["rv"]
+                if (rv["k"] == "ref" and rv.get("mut")) or rv["k"] == "rawptr":
+                    excluded.add(rv["place"]["l"])
+            t = blk["term"]
+            if t["t"] == "switch":
+                p = op_place(t["discr"])
+                if p is not None and not p["p"]:
+                    rel.add(p["l"])
+        changed = True
+        while changed:
+            changed = False
+            for blk in b.blocks:
+                for s in blk["stmts"]:
+                    if s["s"] != "assign" or s["place"]["p"] or s["place"]["l"] not in rel:
+                        continue
+                    rv = s["rv"]
+                    src = []
+                    if rv["k"] == "use":
+                        src = [op_place(rv["op"])]
+                    elif rv["k"] == "unop" and rv["op"] == "Not":
+                        src = [op_place(rv["a"])]
+                    elif rv["k"] == "discr":
+                        src = [rv["place"]] if not rv["place"]["p"] else []
+                    elif rv["k"] == "agg" and rv.get("agg") == "adt":
+                        src = [op_place(o) for o in rv["ops"]]
+                    elif rv["k"] == "binop" and rv["op"] in ("Eq", "Ne"):
+                        src = [op_place(rv["a"]), op_place(rv["b"])]
+                    elif rv["k"] == "ref" and not rv.get("mut") and rv["place"]["p"] in ([], ["deref"]):
+                        src = [{"l": rv["place"]["l"], "p": []}]
+                    for p in src:
+                        if p is not None and p["l"] not in rel and all(e.startswith("as:") or e.startswith("f:") for e in p["p"]):
+                            rel.add(p["l"])
+                            changed = True
+                t = blk["term"]
+                if t["t"] == "call" and not t["dest"]["p"] and t["dest"]["l"] in rel and len(t.get("args", [])) == 1 and \
+                        (self._is_try_branch(t) or any(self._DISCR_VALUE.fullmatch(q) for q in callee_paths(t))):
+                    p = op_place(t["args"][0])
+                    if p is not None and not p["p"] and p["l"] not in rel:
+                        rel.add(p["l"])
+                        changed = True
+        return rel - excluded
+
+    def _assign(self, env, s):
+        dst = s["place"]
+        l = dst["l"]
+        if l in self.tracked and not dst["p"]:
+            rv = s["rv"]
+            v = None
+            mine = False
+            if rv["k"] == "ref" and not rv.get("mut"):
+                mine = True
+                p = rv["place"]
+                if not p["p"] and p["l"] in self.tracked:
+                    v = ("ref", p["l"])
+                elif p["p"] == ["deref"]:
+                    pv = env.get(p["l"])
+                    if pv is not None and pv[0] == "ref":
+                        v = pv
+            elif rv["k"] == "binop" and rv["op"] in ("Eq", "Ne"):
+                mine = True
+                a, b_ = self._op_val(rv["a"], env), self._op_val(rv["b"], env)
+                if a is not None and b_ is not None and a[0] == "disc" and b_[0] == "disc":
+                    v = ("b", (a[1] == b_[1]) == (rv["op"] == "Eq"))
+            if mine:
+                self._kill(env, l)
+                if v is not None:
+                    env[l] = v
+                return
+        FA._assign(self, env, s)
+
+    def _step(self, bb, envt):
+        blk = self.b.blocks[bb]
+        t = blk["term"]
+        if t["t"] == "call" and not t["dest"]["p"] and t["dest"]["l"] in self.tracked and len(t.get("args", [])) == 1 \
+                and any(self._DISCR_VALUE.fullmatch(q) for q in callee_paths(t)):
+            env = self.env_before_term(bb, envt)
+            a = self._op_val(t["args"][0], env)
+            v = None
+            if a is not None and a[0] == "ref":
+                rv = env.get(a[1])
+                if rv is not None and rv[0] == "v":
+                    v = ("disc", rv[2])
+            self._kill(env, t["dest"]["l"])
+            if v is not None:
+                env[t["dest"]["l"]] = v
+            fe = self._freeze(env)
+            return [(x, fe) for x in self.b.succ(bb)]
+        return FA._step(self, bb, envt)
